@@ -69,6 +69,7 @@ type NodeRT struct {
 	// SelfCloseAt > 0: the monitor's own handler calls Close() from inside its
 	// SelfCloseAt-th callback (the "watch until X, then stop" pattern)
 	SelfCloseAt int
+	CbAct       string // what that callback does: close-self (default), close-parent, close-root, list, subscribe
 	selfClosed  bool
 	MonLog      []MonCall
 	monBusy     bool
@@ -103,6 +104,8 @@ type H struct {
 	// overrun"); from then on event streams may legitimately have gaps.
 	Overflow         bool
 	ExpectNoOverflow bool
+	// OnCbAct is told about an API call a monitor callback is about to make
+	OnCbAct func(n *NodeRT, act string)
 	OverflowSeen     bool // any subscriber-buffer overflow was logged (set in every mode)
 	PerNodeOverflow  bool // do not give up strict mirrors globally on an overflow log: only nodes whose own buffer was seen full are exempt
 	WatchOverflow    bool // watcher/session buffer overflow: watch events lost until the next relist
@@ -560,10 +563,36 @@ func (h *H) handler(n *NodeRT) kcache.Handler {
 		}
 		if n.SelfCloseAt > 0 && !n.selfClosed && len(n.MonLog) >= n.SelfCloseAt && n.Mon != nil {
 			n.selfClosed = true
-			n.WeClosed = true
-			detsim.Note("%s closes itself from callback %s", n.Name(), kind)
-			detsim.Count("probe:monitor-closed-from-own-callback")
-			n.Mon.Close()
+			act := n.CbAct
+			if act == "" {
+				act = "close-self"
+			}
+			detsim.Note("%s: %s from inside callback %s", n.Name(), act, kind)
+			detsim.Count("probe:callback-api-call:" + act)
+			if h.OnCbAct != nil {
+				h.OnCbAct(n, act)
+			}
+			switch act {
+			case "close-self":
+				n.WeClosed = true
+				n.Mon.Close()
+			case "close-parent":
+				h.CloseNode(n.Parent)
+			case "close-root":
+				h.Ctrl.Close()
+			case "list":
+				if c := h.CacheOf(n.Parent); c != nil {
+					c.List()
+				}
+			case "subscribe":
+				// a short-lived sibling created and closed from inside the callback
+				if pub := h.publisherOf(n.Parent); pub != nil {
+					if sub, err := pub.Subscribe(); err == nil {
+						sub.Close()
+						<-sub.Done()
+					}
+				}
+			}
 		}
 		return len(n.MonLog) - 1
 	}
